@@ -114,16 +114,20 @@ static void dump_model(const mjModel* m, Str* b) {
 }
 
 static uint64_t fnv(const unsigned char* p, size_t n) {
-  uint64_t h = 1469598103934665603ULL;
+  uint64_t h = 14695981039346656037ULL;
   for (size_t i = 0; i < n; i++) { h ^= p[i]; h *= 1099511628211ULL; }
   return h;
 }
 
 // ------------------------------------------------------------------ handlers
-static char lastwarn[1024];
+static char lastwarn[2048];
 static int fatal_fd = -1;          // in a child: where "fatal <msg>" goes
 static const char* stage = "load";
-static void on_warning(const char* msg) { strncpy(lastwarn, msg, sizeof(lastwarn) - 1); lastwarn[sizeof(lastwarn) - 1] = 0; }
+// all warnings of one call, joined by " | "
+static void on_warning(const char* msg) {
+  size_t n = strlen(lastwarn);
+  snprintf(lastwarn + n, sizeof(lastwarn) - n, "%s%s", n ? " | " : "", msg);
+}
 static char errbuf[1200];
 static int in_child = 0;
 static size_t alloc_seq = 0, alloc_second = 0, alloc_cap = (size_t)256 << 20;
@@ -150,17 +154,38 @@ static void on_error(const char* msg) {
   fflush(stdout);
   exit(3);
 }
+// Allocation hook: 64-byte aligned blocks of exactly the requested size (so that a sanitizer sees
+// the first byte past the end), preceded by a 64-byte header holding the size and followed by a
+// 64-byte canary that is checked on free: a write past the end of the model buffer is detected in
+// every build variant, not only under ASan.
+#define CANARY 0xA5
+#if HAVE_LSAN
+#define NCANARY 0   /* let the sanitizer see the first byte past the end */
+#else
+#define NCANARY 64
+#endif
 static void* cap_malloc(size_t n) {
   alloc_seq++;
   if (alloc_seq == 2) alloc_second = n;
   if (n > alloc_cap) return NULL;
   void* p = NULL;
-  size_t r = (n + 63) & ~(size_t)63;
-  if (r == 0) r = 64;
-  if (posix_memalign(&p, 64, r)) return NULL;
-  return p;
+  if (posix_memalign(&p, 64, 64 + n + NCANARY)) return NULL;
+  *(size_t*)p = n;
+  memset((char*)p + 64 + n, CANARY, NCANARY);
+  return (char*)p + 64;
 }
-static void cap_free(void* p) { free(p); }
+static void cap_free(void* q) {
+  if (!q) return;
+  char* p = (char*)q - 64;
+  size_t n = *(size_t*)p;
+  for (int i = 0; i < NCANARY; i++) {
+    if ((unsigned char)p[64 + n + i] != CANARY) {
+      if (in_child) { wr(fatal_fd, " canary=overwritten"); _exit(0); }
+      fprintf(stderr, "canary overwritten\n"); abort();
+    }
+  }
+  free(p);
+}
 
 // ------------------------------------------------------------------ state
 static mjModel* M = NULL;
